@@ -5,8 +5,11 @@ import I18n.Props.C04
 import I18n.Props.C09
 import I18n.Props.C11
 import I18n.Props.C12
+import I18n.Props.C13
 import I18n.Props.C18
 import I18n.Props.C19
+import I18n.Props.C20
+import I18n.Lemmas.PipelineReal
 /-!
 # C01 — every input file is handled without crash, hang or abnormal exit   (PARTIAL: see below)
 
@@ -32,9 +35,17 @@ as a composition, with the exception-to-tag mapping READ FROM THE SOURCE on ever
   `main_ok` (then stdout is the concatenation of the per-file lines, sequentially and with `-j`), `checkFile_ok` (`--unpack-deb`).
 * `pipeline_nocrash`: for every list of files, each unreadable / of another type / an MO byte string / a PO file, every `-l`
   that is not rejected, every `-j`: exit status 0, empty stderr, only tag lines — the MO loader (C09), `check_language` (C19),
-  `check_plurals` (C04–C07) and `check_dates` (C18) being discharged here for all inputs, the components still under
-  construction entering as the fields of `Pending` (C10 PO loader; C15 header stages; C16 message stage, which itself rests on
-  C13/C14), to be replaced by those properties' theorems at merge time.
+  `check_plurals` (C04–C07) and `check_dates` (C18) being discharged here for all inputs, the other components entering as the
+  fields of `Pending` — the general composition law, kept; its instance with every field discharged is the next item.
+* **`pipeline_nocrash_unconditional`** (section 7, after the merge of C10, C13–C17): every field of `Pending` discharged.  The
+  loaders are C09's `Mo.parse` and C10's `Po.load` (closed outcome set: `Lemmas/PoNoCrash.lean`), the stages are C17's
+  `Meta.Real.pipeline` — `Hdr.*` (C15), `Locale.checkLanguage` (C19), `CheckPlurals.checkPlurals` (C04–C07), `Hdr.checkMime` over
+  C20's fragment, `Date.checkDates` (C18), `Msg.trace` (C16) with C14's `check_message` over the parsers of C11, C12 and C13
+  (`Lemmas/PipelineBrace.lean` computes C14's brace inputs from C13's parsers and proves C14's provisos).  No hypothesis about a
+  loader or a stage is left; what remains is about the world outside the file and is named: `WorldOk` (shipped plural registry;
+  C20's fragment total; expat raises only `ExpatError`; checkers get the message's strings — `worldOk_live` builds it from the
+  generated tables under two third-party contracts), `Po.CodecsBehave`, `C09.Latin1OK`.  `pybraceCheckString_nocrash` /
+  `perlbraceCheckString_nocrash` replace the C13 hypothesis of `braceCheckString_nocrash`.
 * every line printed comes from `Tag.format`, whose grammar and cleanliness are C02's theorems (`line_is_tag_line`).
 
 REFUTED on the real code, not exhibited by any model here (the models recurse structurally): a plural expression nested deeper
@@ -355,6 +366,67 @@ theorem braceCheckString_nocrash {φ : Type} (fmt : String) (hf : fmt = "python-
     cases hd : dispatch (checkStringSite f).handlers c with
     | none => rw [hd] at h2; simp at h2
     | some h => rfl
+  · intro f ws t _ ht
+    cases ht
+
+theorem pybrace_own_caught (c : PyBrace.ErrClass) (a : PyBrace.ErrArg) :
+    (dispatch pybraceErrSite.handlers (braceErrCls (.own c a))).map (·.tags) = some ["python-brace-format-string-error"] := by
+  cases c <;> simp only [braceErrCls, PyBrace.ErrClass.name] <;> decide
+
+/-- **`msgformat.pybrace.Checker.check_string` never raises**, for every string (C13 `brace_error_own`: the parser raises only
+    its module's `Error` classes — the `assert`s, `int()`, `_printable_prefix` are unreachable) -/
+theorem pybraceCheckString_nocrash (s : List Char) : (pybraceCheckString s).uncaught = none := by
+  apply checkString_nocrash
+  · intro c hc
+    unfold pybraceParse at hc
+    cases hp : PyBrace.parse s with
+    | ok r => rw [hp] at hc; cases hc
+    | error e =>
+      rw [hp] at hc
+      cases hc
+      obtain ⟨cl, a, rfl⟩ := C13.brace_error_own hp
+      have := pybrace_own_caught cl a
+      cases hd : dispatch pybraceErrSite.handlers (braceErrCls (.own cl a)) with
+      | none => rw [hd] at this; cases this
+      | some h => rfl
+  · intro f ws t _ ht
+    cases ht
+
+theorem pybraceCheckString_error_tag (s : List Char) (e : PyBrace.PErr) (h : PyBrace.parse s = .error e) :
+    (pybraceCheckString s).fmt = none ∧ (pybraceCheckString s).tags = ["python-brace-format-string-error"] := by
+  obtain ⟨cl, a, rfl⟩ := C13.brace_error_own h
+  have hc := pybrace_own_caught cl a
+  cases hd : dispatch pybraceErrSite.handlers (braceErrCls (.own cl a)) with
+  | none => rw [hd] at hc; cases hc
+  | some hh =>
+    rw [hd] at hc
+    simp only [Option.map_some, Option.some.injEq] at hc
+    have := checkString_error (φ := PyBrace.Result) pybraceErrSite none _ hh hd
+    unfold pybraceCheckString pybraceParse
+    rw [h]
+    simp only
+    rw [this.1, this.2, hc]
+    exact ⟨rfl, rfl⟩
+
+theorem perl_own_caught : (dispatch perlbraceErrSite.handlers (clsId "lib.strformat.perlbrace.Error")).map (·.tags)
+    = some ["perl-brace-format-string-error"] := by decide
+
+/-- **`msgformat.perlbrace.Checker.check_string` never raises** (C13 `perl_error_own`) -/
+theorem perlbraceCheckString_nocrash (s : List Char) : (perlbraceCheckString s).uncaught = none := by
+  apply checkString_nocrash
+  · intro c hc
+    unfold perlbraceParse at hc
+    cases hp : PerlBrace.parse s with
+    | ok r => rw [hp] at hc; cases hc
+    | error e =>
+      rw [hp] at hc
+      cases hc
+      obtain ⟨p, rfl⟩ := C13.perl_error_own hp
+      have := perl_own_caught
+      simp only [perlErrCls]
+      cases hd : dispatch perlbraceErrSite.handlers (clsId "lib.strformat.perlbrace.Error") with
+      | none => rw [hd] at this; cases this
+      | some h => rfl
   · intro f ws t _ ht
     cases ht
 
@@ -808,6 +880,114 @@ theorem pipeline_crash_visible {F σ : Type} (fmt : Line TagName → String) (st
     exact (check_uncaught_iff true .po load init st.list).2 ⟨rfl, by decide, .inr (.inr (.inl ⟨f, hload, hraise⟩))⟩
   unfold Cli.main
   simp [hl, Cli.runSeq, hu]
+
+/-! ## 7. the composition with every stage model in place: no hypothesis about any stage -/
+
+/-- the two MO loader wrappers are the same function -/
+theorem moLoad_eq : Pipeline.moLoad = Meta.moLoad := rfl
+
+/-- one command-line argument for the composed checker of C17 (`Meta.Real`): the bytes of the file, and the world around it
+    (`self.path`, `options.language`, the clock, the library results the stage models take as inputs) -/
+inductive RealArg where
+  /-- `os.stat` fails -/
+  | unreadable
+  /-- an extension (or `--file-type`) that is none of po, pot, mo, gmo -/
+  | otherType
+  /-- `.mo` / `.gmo`: any byte string -/
+  | mo (w : Meta.Real.World) (bytes : Mo.Bytes)
+  /-- `.po` / `.pot`: any byte string -/
+  | po (w : Meta.Real.World) (template : Bool) (bytes : Po.Bytes)
+
+/-- `check_file(path)`: `Meta.Real.checkMo` / `checkPo` are `Check.check` over the real loader models (C09, C10) and
+    `Meta.Real.pipeline` — the ten statements after the load with the stage models of C15, C19, C04–C07, C20, C18, C16, C14
+    (parsers: C11, C12, C13) -/
+def RealArg.run (fmt : Line Meta.Real.RTag → String) (db : Mo.CodecDB) (env : Po.Env) : RealArg → Cli.FileRun
+  | .unreadable => ⟨[fmt .osError], false⟩
+  | .otherType => ⟨[fmt .unknownFileType], false⟩
+  | .mo w bytes => ⟨(Meta.Real.checkMo w db true bytes).lines.map fmt, (Meta.Real.checkMo w db true bytes).uncaught⟩
+  | .po w t bytes => ⟨(Meta.Real.checkPo w env t true bytes).lines.map fmt, (Meta.Real.checkPo w env t true bytes).uncaught⟩
+
+def RealArg.worldOk : RealArg → Prop
+  | .mo w _ => Meta.Real.WorldOk w
+  | .po w _ _ => Meta.Real.WorldOk w
+  | _ => True
+
+/-- the two short cases are `Checker.check` on an unreadable path / another file type, whatever the bytes -/
+theorem real_short_cases (w : Meta.Real.World) (db : Mo.CodecDB) (env : Po.Env) (t : Bool) (b1 : Mo.Bytes) (b2 : Po.Bytes) :
+    Meta.Real.checkMo w db false b1 = ⟨[.osError], false⟩ ∧ Meta.Real.checkPo w env t false b2 = ⟨[.osError], false⟩ := ⟨rfl, rfl⟩
+
+/-- **every byte string with an MO extension** is checked without an exception leaving `Checker.check` -/
+theorem real_mo_nocrash (w : Meta.Real.World) (hw : Meta.Real.WorldOk w) (db : Mo.CodecDB) (hl : C09.Latin1OK db) (statOk : Bool)
+    (bytes : Mo.Bytes) : (Meta.Real.checkMo w db statOk bytes).uncaught = false := by
+  unfold Meta.Real.checkMo
+  rw [← moLoad_eq]
+  exact check_total _ _ _ _ _ (moLoad_first db bytes) (moLoad_retry db hl bytes) (Meta.Real.pipeline_total w hw)
+
+/-- **every byte string with a PO or POT extension** is checked without an exception leaving `Checker.check` -/
+theorem real_po_nocrash (w : Meta.Real.World) (hw : Meta.Real.WorldOk w) (env : Po.Env) (hc : Po.CodecsBehave env) (t statOk : Bool)
+    (bytes : Po.Bytes) : (Meta.Real.checkPo w env t statOk bytes).uncaught = false := by
+  unfold Meta.Real.checkPo
+  exact check_total _ _ _ _ _ (Meta.Real.poLoad_first env hc bytes) (Meta.Real.poLoad_retry env hc bytes) (Meta.Real.pipeline_total w hw)
+
+/-- **pipeline_nocrash_unconditional** — `pipeline_nocrash` with every field of `Pending` discharged: the loaders are the models
+    of C09 (`Mo.parse`) and C10 (`Po.load`), the stages are `Meta.Real.pipeline` (C15 header stages, C19, C04–C07, C15 `check_mime`
+    over C20's fragment, C18, C16 with C14's `check_message` over the parsers of C11, C12, C13).  For every list of arguments —
+    unreadable paths, other file types, ARBITRARY BYTE STRINGS as MO, PO or POT files —, every accepted `-l`, every `-j`: exit status
+    0, empty stderr, every stdout line the rendering of a tag call.  No hypothesis about any loader or stage is left; what remains
+    is about the world outside the file: `WorldOk` (shipped plural registry, codecs and expat raise their documented exceptions
+    only, format checkers see the message's strings), `Po.CodecsBehave` and `C09.Latin1OK` (ISO-8859-1 decodes everything; a
+    codec the tool classified as ASCII-compatible raises only `UnicodeError`).  Outside every model, as before: recursion depth
+    (open finding), time, the OS. -/
+theorem pipeline_nocrash_unconditional (fmt : Line Meta.Real.RTag → String) (db : Mo.CodecDB) (hl : C09.Latin1OK db)
+    (env : Po.Env) (hc : Po.CodecsBehave env) (files : List RealArg) (hw : ∀ a ∈ files, a.worldOk)
+    (lang : Cli.LangOpt) (hlang : lang ≠ .invalid) (jobs : Nat) :
+    (Cli.main lang (RealArg.run fmt db env) files jobs).rc = 0 ∧
+    (Cli.main lang (RealArg.run fmt db env) files jobs).stderr = false ∧
+    ∀ l ∈ (Cli.main lang (RealArg.run fmt db env) files jobs).stdout, ∃ x : Line Meta.Real.RTag, l = fmt x := by
+  have hfile : ∀ a ∈ files, (RealArg.run fmt db env a).uncaught = false := by
+    intro a ha
+    have hwa := hw a ha
+    cases a with
+    | unreadable => rfl
+    | otherType => rfl
+    | mo w bytes => exact real_mo_nocrash w hwa db hl true bytes
+    | po w t bytes => exact real_po_nocrash w hwa env hc t true bytes
+  rw [main_ok lang hlang _ files jobs hfile]
+  refine ⟨rfl, rfl, ?_⟩
+  intro l hl'
+  simp only [List.mem_flatten, List.mem_map] at hl'
+  obtain ⟨ls, ⟨a, _, rfl⟩, hmem⟩ := hl'
+  cases a with
+  | unreadable => simp only [RealArg.run, List.mem_singleton] at hmem; exact ⟨_, hmem⟩
+  | otherType => simp only [RealArg.run, List.mem_singleton] at hmem; exact ⟨_, hmem⟩
+  | mo w bytes =>
+    simp only [RealArg.run, List.mem_map] at hmem
+    obtain ⟨x, _, rfl⟩ := hmem
+    exact ⟨x, rfl⟩
+  | po w t bytes =>
+    simp only [RealArg.run, List.mem_map] at hmem
+    obtain ⟨x, _, rfl⟩ := hmem
+    exact ⟨x, rfl⟩
+
+/-- `WorldOk` is what the running tool's world looks like: C20's fragment over the generated tables, C16's generated
+    environment, a plural-forms source that answers from the shipped registry, and `kmsgReal` — under the two third-party
+    contracts (expat raises only `ExpatError`; `str.encode` of the declared codec raises only `UnicodeError`) -/
+theorem worldOk_live (hx : Hdr.Ext) (now : Int) (xml : Tags.Str → Msg.XmlVerdict) (hxml : ∀ s, xml s ≠ .other)
+    (munch : List Char → List Char) (path : List Char) (opt : Option Locale.Language)
+    (cenv : Charset.Env) (htbl : cenv.tbl = Generated.Charset.portableEncodings) (hc2e : cenv.c2e = Generated.Charset.pycodecToEncoding)
+    (chars : Option Locale.Language → Option (Option (List (List Nat))))
+    (henc : ∀ lang enc cs, chars lang = some (some cs) → Charset.EncodeOk (cenv.encode enc) cs)
+    (pf : Option Locale.Language → Option (List (List Char)) × List (List Char))
+    (hpf : ∀ lang, CheckPlurals.FromRegistry ⟨[], (pf lang).1, [], [], false⟩)
+    (reprParen : List Char → Option (List Char) → List Char) (reprs : Meta.Obs → Extra × Extra) :
+    Meta.Real.WorldOk
+      { hx := hx, now := now, menv := Msg.liveEnv xml, munch := munch, path := path, optLanguage := opt,
+        charset := fun tpl lang n => Charset.checkCharset cenv n tpl (chars lang),
+        pluralForms := pf, reprParen := reprParen, kmsg := PipelineBrace.kmsgReal reprs } where
+  registry := hpf
+  charset_total := fun tpl lang n => C20.check_total cenv n tpl (chars lang) htbl hc2e (fun enc cs h => henc lang enc cs h)
+  menv_sane := C16.live_env_sane xml hxml
+  kmsg_real := ⟨reprs, rfl⟩
 
 /-! ## what is printed -/
 
